@@ -81,10 +81,18 @@ def run_case(case):
   n = case["nreqs"]
   has_en = case["cls"] == "RoundRobinArbiterEn"
   T = mk_bits(n)
-  top = getattr(arbiters, case["cls"])(n)
-  top.elaborate()
-  harness.prepare(top, case["sched"], case["sched_seed"])
-  top.sim_reset()
+  try:
+    top = getattr(arbiters, case["cls"])(n)
+    top.elaborate()
+    harness.prepare(top, case["sched"], case["sched_seed"])
+    top.sim_reset()
+  except Exception as e:
+    # every scheduler of the list must accept the arbiter at every legal nreqs (static ones need its blocks acyclic)
+    from . import common_rtl as C
+    v = C.exc_violation(e, "build/%s/%s" % (case["cls"], case["sched"]))
+    v["sig"] = dict(v["sig"], sched=case["sched"].split("_")[0])
+    return {"violations": [v], "digest": _rng.Digest().hex(), "nontrivial": False,
+            "stats": {"fault_counts": {"sched." + case["sched"]: 1}}}
   m = RRModel(n, has_en)
   D = _rng.Digest()
   viol = []
